@@ -72,11 +72,13 @@ F3Prog(c) ==
          Call1c("y", "f", 2), Obs(<<"x", "y">>)>>
 
 \* F4: return from a block, exceptions through blocks, try/catch in F and in the block
-F4 == {<<e, b, w, o>> \in {0, 1, 2, 3} \X SeqsUpTo(Simple({"x", "t"}, {"x", "t", "p"}), BodyLen) \X {0, 1} \X {0, 1} : TRUE}
+F4 == {<<e, b, w, o>> \in {0, 1, 2, 3, 4} \X SeqsUpTo(Simple({"x", "t"}, {"x", "t", "p"}), BodyLen) \X {0, 1} \X {0, 1} : TRUE}
 F4Prog(c) ==
     LET e == c[1] b == c[2] w == c[3] o == c[4]
         ending == CASE e = 0 -> <<>> [] e = 1 -> <<Ret("p")>> [] e = 2 -> <<Throw>>
                     [] e = 3 -> <<Try(<<Throw>>, <<Inc("x", "x")>>)>>
+                    \* return from a block nested in f, called inside a try of f: not an exception
+                    [] e = 4 -> <<Blk("g", "", 2, <<Ret("p")>>, ""), Try(<<Call0("t", "g")>>, <<Const("x", 7)>>)>>
         callf == <<Call1c("y", "f", 3), Inc("x", "x")>>
     IN <<Const("x", 0), Blk("f", "p", 1, b \o ending, "x")>> \o
        (IF w = 1 THEN <<Try(callf, <<Const("z", 9)>>)>> ELSE callf) \o
